@@ -111,7 +111,8 @@ func init() {
 				Quick:    {Depth: 4, Budget: 150 * time.Second, ReplayEvery: 16},
 				Thorough: {Depth: 6, Budget: 12 * time.Minute, ReplayEvery: 8, MaxStates: 300000},
 			}}},
-			Owns:        ownsAny("tx.reject_unexpected:str.claim", "tx.reject_unexpected:str.cancel", "tx.reject_unexpected:str.topup", "tx.panic", "tx.accept_unexpected:str.create:blocked_recipient"),
+			Owns: ownsAny("tx.reject_unexpected:str.claim", "tx.reject_unexpected:str.cancel", "tx.reject_unexpected:str.topup", "tx.panic", "tx.accept_unexpected:str.create:blocked_recipient",
+				"tx.entitled_signer_refused:str.claim", "tx.entitled_signer_refused:str.cancel", "tx.entitled_signer_refused:str.topup"),
 			Extra:       c12Enum,
 			Assumptions: []string{"only streams whose creation the chain accepted are judged", "numeric domain covered on the boundary grid listed in coverage.grid"},
 		}
